@@ -498,7 +498,7 @@ class Runner:
                 key = b["key"]
                 form = site["id"].rsplit(".", 1)[-1]
                 # one root mechanism each, whichever filter happens to be the innermost frame
-                kwname = name if f"@N@: obj" in site["src"] and name in ("context", "environment") else ""
+                kwname = name if "@N@: obj" in site["src"] and name in ("context", "environment") else ""
                 if (form in ("g13", "g14", "g15", "g16") or kwname) and b["name"] not in O.INSTANCE_ALLOW:
                     which = kwname or ("context" if form in ("g13", "g14") else "environment")
                     key = f"attr-read:fixed:{b['name']}@injected-kwarg-override:{which}"
@@ -542,15 +542,18 @@ def shards(tier: str, seed: int) -> list[dict[str, Any]]:  # noqa: ARG001
 
 
 def floors(tier: str) -> dict[str, int]:
+    # DESIGN 5.1 asks for >= 10 000 attribute-log events and >= 60 (shape x site) pairs; the
+    # numbers below are ~1/4 of what the unchanged tree yields (quick: 660k events, 10.7k spy
+    # pairs, 15k engine pairs, 44k relation checks, 144k filter calls, 75 filters)
     k = 1 if tier == "quick" else 5
     return {
-        "attr_log_events": 10_000 * k,
-        "set:shape_site": 60,
-        "set:engine_shape_site": 60,
+        "attr_log_events": 150_000 * k,
+        "set:shape_site": 2_500,
+        "set:engine_shape_site": 3_500,
         "relation_checks": 10_000 * k,
-        "filter_calls": 10_000 * k,
-        "set:filters_called": 60,
-        "renders_with_public_flow": 2_000 * k,
+        "filter_calls": 30_000 * k,
+        "set:filters_called": 70,
+        "renders_with_public_flow": 4_000 * k,
     }
 
 
@@ -586,7 +589,7 @@ def run_shard(spec: dict[str, Any], ctx: Ctx) -> None:
             else:
                 nn = 4 if is_spy else 3
         else:
-            nn = 6 if (generic and not keyf) else 16
+            nn = 6 if (generic and not keyf) else 48
         core = [n for n in CORE_NAMES if n in pool]
         names = [rng.choice(core)] if core else []
         names += rng.sample(pool, min(nn, len(pool)))
